@@ -124,10 +124,25 @@ struct LinkOptions {
     output: PathBuf,
 }
 
+/// Every pass recurses over the syntax tree, and a block of `n` statements is
+/// `n` levels deep after lowering, so the default 8 MiB main-thread stack
+/// overflows on a function with a few hundred statements.
+const COMPILER_STACK_SIZE: usize = 256 << 20;
+
 fn main() {
-    if let Err(err) = run_cli() {
-        eprintln!("{err}");
-        std::process::exit(1);
+    let worker = std::thread::Builder::new()
+        .name("goml".to_string())
+        .stack_size(COMPILER_STACK_SIZE)
+        .spawn(run_cli)
+        .expect("failed to start the compiler thread");
+    match worker.join() {
+        Ok(Ok(())) => {}
+        Ok(Err(err)) => {
+            eprintln!("{err}");
+            std::process::exit(1);
+        }
+        // the panic message has already been printed by the panic hook
+        Err(_) => std::process::exit(101),
     }
 }
 
